@@ -107,7 +107,7 @@ TRUSTED = [
 RULE = (
     "id lists built from run structures (singletons, runs of 2..12, line-filling lengths 0..40, unsorted and "
     "repeated ids, 1..8 digit ids), every start field 1..10, SET max_length 24..72 and short widths that force "
-    "token splits (oracle: every max_length 2..26 x six id lists, round trip iff every token fits), TABLED1 with 0..13 "
+    "token splits (oracle: every max_length 2..26 x six id lists, round trip iff every token fits, and exactly what rdsets returns on a cut token: {} for a cut head, the ids before the cut item followed by the reading of its first max_length-1 characters, or ValueError; streams wtset / rdsets on cut texts: head cut by >= 2 columns, by exactly 1, item cut inside a plain id / inside a / inside THRU / inside b / before its comma), TABLED1 with 0..13 "
     "points in four formats and both widths, DMIG with grid/scalar partial-DOF index sets, forms 1/2/6/9, types 1-4, "
     "integer AND real / complex values of 60 decades, read plain and with expanded / square / both; vecwrite with 1..5 "
     "arguments, each a scalar, a length-1 / length-N / other-length list, tuple or array in every order (ValueError and "
